@@ -14,7 +14,8 @@ LEVEL = "exploration"
 BASELINE = "C12"
 REQUIRED_COUNTERS = ["scans", "documents_compared", "single_rule_scans"]
 ASSUMPTIONS = ["documents on which a scan ends in a tokenization or plugin error are skipped (C01/C07), counted"]
-LIMIT = {"Z1": 5097, "Z3": 5000, "Z4": 3000, "Z7": 8000}
+LIMIT = {"Z1": 5097, "Z3": 5000, "Z4": 3000, "Z7": 8000, "Z11": 4000, "Z12": 8000}
+N_NEXT = 4000  # Z7 documents with a multi-rule disable-next-line pragma in front of the line on which most rules fire
 N_PRAGMA = 3000  # Z7 documents with a pragma line (naming rules that fire) put on top: suppression must not depend on the rule set
 
 
@@ -23,13 +24,17 @@ def universe_hash():
 
 
 def plan(tier, seed, complete=False):
-    items, zinfo = PL.plan_docs(tier, seed, complete, quick={"Z1": 300, "Z3": 180, "Z4": 100, "Z7": 220}, z1_all=False, limit=LIMIT, zones=("Z1", "Z3", "Z4", "Z7"), force_b=True)
+    items, zinfo = PL.plan_docs(tier, seed, complete, quick={"Z1": 300, "Z3": 180, "Z4": 100, "Z7": 220, "Z11": 100, "Z12": 180}, z1_all=False, limit=LIMIT, zones=("Z1", "Z3", "Z4", "Z7", "Z11", "Z12"), force_b=True, check="C12")
     if complete or tier == "thorough":
         pidx = list(range(N_PRAGMA))
     else:
         pidx = U.pick("Z7", seed + 12, 120, 0, N_PRAGMA)
-    items = items + [f"PR:{i}" for i in pidx]
-    zinfo["pragma-topped Z7 documents"] = {"universe": N_PRAGMA, "run": len(pidx)}
+    if not PL.only_group_b():
+        items = items + [f"PR:{i}" for i in pidx]
+        zinfo["pragma-topped Z7 documents"] = {"universe": N_PRAGMA, "run": len(pidx)}
+        nidx = list(range(N_NEXT)) if (complete or tier == "thorough") else U.pick("Z7", seed + 13, 160, 0, N_NEXT)
+        items = items + [f"PN:{i}" for i in nidx]
+        zinfo["Z7 documents with a multi-rule disable-next-line pragma"] = {"universe": N_NEXT, "run": len(nidx)}
     return {
         "items": items, "zones": zinfo, "exhaustive": False,
         "rule": "documents of the frozen universes (raw corpus, prefixes of Z3/Z4) x {all rules, each rule alone, default set, default minus two index-chosen rules}; "
@@ -57,6 +62,29 @@ def run_items(items, job):
                 body = body.rstrip("\n")  # MD047 fires on the last line
             nl = body.count("\n") + 2
             doc = f"<!-- pyml disable-num-lines {nl} md047,md041,md022,md009,md013-->\n" + body
+        elif isinstance(it, str) and it.startswith("PN:"):
+            key = it
+            n = int(it.split(":")[1])
+            body = U.doc("Z7", 50000 + n)
+            pre = app.scan_text(body, only=allr)
+            R.count("scans")
+            by_line = {}
+            for ft in pre.fail_tuples():
+                by_line.setdefault(ft[0], []).append((ft[1], ft[2].lower()))
+            if pre.watchdog or pre.tokenization_error or pre.plugin_error or not by_line:
+                R.evals += 1
+                R.skip("no-failure-to-suppress-or-scan-error")
+                continue
+            ln = max(sorted(by_line), key=lambda x: len({r_ for _, r_ in by_line[x]}))
+            order = []
+            for _, r_ in sorted(by_line[ln], reverse=(n % 2 == 0)):  # report order / reverse report order
+                if r_ not in order:
+                    order.append(r_)
+            if len(order) > 1:
+                R.count("multi_rule_next_line_pragmas")
+            bl = body.split("\n")
+            sep = [",", ", ", " ,"][n % 3]
+            doc = "\n".join(bl[: ln - 1] + [f"<!-- pyml disable-next-line {sep.join(order)}-->"] + bl[ln - 1:])
         else:
             key, doc = PL.item_doc(it)
         R.evals += 1
